@@ -49,16 +49,24 @@ Inductive case :=
 Definition store_fn (store : list (list (list (list row)))) (p k : nat) : list (list row) :=
   nth k (nth p store []) [].
 
+(* every combination of repaired defects is an accepted implementation (a maintainer may take any subset of the
+   fixes); the code as it is comes first, so on the unchanged tree one evaluation per case suffices *)
+Definition bools : list bool := [false; true].
+Definition all_fx : list fixes :=
+  fx_all false :: fx_all true ::
+  flat_map (fun a => flat_map (fun b => flat_map (fun c => flat_map (fun d => flat_map (fun e =>
+    map (fun f => mkFx a b c d e f) bools) bools) bools) bools) bools) bools.
+Definition limit_fx : list fixes :=
+  flat_map (fun c => map (fun d => mkFx false false c d false false) bools) bools.
+
 Definition ok (c : case) : bool :=
   match c with
   | CTable whats lods by_ by_s from to fe num desired store obs =>
       forallb (fun l1 => forallb (fun l2 => forallb (forallb wf_row) l2) l1) store &&
-      let t := fun fixed => table fixed whats lods by_ by_s from to fe num desired (store_fn store) in
-      (res_match fe (t false) obs || res_match fe (t true) obs)
+      existsb (fun fx => res_match fe (table fx whats lods by_ by_s from to fe num desired (store_fn store)) obs) all_fx
   | CLimit groups from to fe limit obs =>
-      let t := fun fixed => limit_queries fixed from to fe groups limit in
-      let m := fun r => list_eqb row_eqb (fst r) (fst obs) && Bool.eqb (snd r) (snd obs) in
-      m (t false) || m (t true)
+      existsb (fun fx => let r := limit_queries fx from to fe groups limit in
+                         list_eqb row_eqb (fst r) (fst obs) && Bool.eqb (snd r) (snd obs)) limit_fx
   | CWhat whats obs => list_eqb hw_eqb (handler_whats whats) obs
   end.
 
